@@ -94,6 +94,7 @@ struct World {
     Probe<M> mesh;
     std::vector<std::unique_ptr<PropBase>> props[7];
     int seq = 0;
+    int next_vid = 0;   // identity tokens handed to new vertices by the oracles (oracle_kernel.hh)
 };
 
 template <class H>
